@@ -816,6 +816,14 @@ def replaceNonesWithNonsense(
             realType = float
             defaultValue = NONE_MAP[realType]
 
+        if np.issubdtype(realType, np.integer) and any(
+            np.asarray(d).dtype.kind == "f" for d in data if d is not None
+        ):
+            # An integer came first, but there are reals as well: the cast to the type of
+            # the first value below would truncate them. Store the collection as reals.
+            realType = float
+            defaultValue = np.full(np.shape(defaultValue), NONE_MAP[realType])[()]
+
         if isinstance(val, np.ndarray):
             data = np.array([d if d is not None else defaultValue for d in data])
         else:
